@@ -1,2 +1,3 @@
 pub mod inst;
 pub mod sparse;
+pub mod alloc;
